@@ -1,6 +1,8 @@
 #ifndef NMTOOLS_DEF_HPP
 #define NMTOOLS_DEF_HPP
 
+#include "nmtools/verif.hpp"
+
 // this file may be used to resolve size_t
 // for example, avr gcc should include <stddef.h>
 // c++ for opencl can't include but already have size_t
@@ -70,7 +72,19 @@ namespace nmtools
 
         constexpr clipped_integer_t(T other)
             : value(other > Max ? Max : (other < Min ? Min : other))
+        #ifdef NMTOOLS_VERIF
+        {
+            if (!__builtin_is_constant_evaluated()) {
+                if ((other > Max) || (other < Min)) {
+                    verif::flag(verif::CLAMP,(long long)other,(long long)Max);
+                } else {
+                    verif::count(verif::CLAMP);
+                }
+            }
+        }
+        #else // NMTOOLS_VERIF
         {}
+        #endif // NMTOOLS_VERIF
 
         constexpr operator T() const noexcept
         {
